@@ -608,3 +608,38 @@ MUTANTS += [
      'expect': {'C06': None, 'C08': None, 'C02': None, 'C14': None, 'C11': None, 'C07': None, 'C03': None, 'C01': None, 'C09': None,
                 'C12': None, 'C13': None, 'C16': None, 'C18': None}},
 ]
+
+# ---- more silent rewrites aimed at the machine-based checks -------------------------------------------------------------------
+MUTANTS += [
+    # the level-state encoding renumbered (IN_ARRAY_1/2 moved to other bits): internal, no behaviour change
+    {'name': 'silent_level_flags_renumbered', 'edits': [(P, '''#define BINSON_STATE_IN_ARRAY_1             (0x0004U)
+#define BINSON_STATE_IN_ARRAY_2             (0x0008U)
+#define BINSON_STATE_IN_ARRAY               (0x000CU)''', '''#define BINSON_STATE_IN_ARRAY_1             (0x0040U)
+#define BINSON_STATE_IN_ARRAY_2             (0x0100U)
+#define BINSON_STATE_IN_ARRAY               (0x0140U)''')],
+     'expect': {'C06': None, 'C08': None, 'C02': None, 'C07': None, 'C11': None, 'C14': None, 'C16': None, 'C01': None}},
+    # leave_object looks at the level through current_state instead of indexing the array (equal by the A1 invariant)
+    {'name': 'silent_leave_object_via_current_state', 'edits': [(P, '''    binson_state *state = &parser->state[(parser->depth > 0) ? parser->depth - 1 : 0];
+    if (!CHECKBITMASK(state->flags, BINSON_STATE_IN_OBJECT)) {''', '''    binson_state *state = parser->current_state;
+    if (!CHECKBITMASK(state->flags, BINSON_STATE_IN_OBJECT)) {''')],
+     'expect': {'C06': None, 'C08': None, 'C01': None, 'C09': None}},
+    # statements of the OBJECT_BEGIN branch reordered
+    {'name': 'silent_object_begin_reordered', 'edits': [(P, '''                    CLEARBITMASK(scan_flags, BINSON_ADVANCE_ENTER_OBJECT);
+                    parser->buffer_used += 1;
+                    if ((parser->depth < UINT8_MAX) &&
+                        (parser->depth < parser->max_depth)) {
+                        parser->depth++;''', '''                    if ((parser->depth < UINT8_MAX) &&
+                        (parser->depth < parser->max_depth)) {
+                        CLEARBITMASK(scan_flags, BINSON_ADVANCE_ENTER_OBJECT);
+                        parser->buffer_used += 1;
+                        parser->depth++;'''), (P, '''                    else {
+                        parser->error_flags = BINSON_ERROR_MAX_DEPTH_OBJECT;
+                        break;
+                    }''', '''                    else {
+                        CLEARBITMASK(scan_flags, BINSON_ADVANCE_ENTER_OBJECT);
+                        parser->buffer_used += 1;
+                        parser->error_flags = BINSON_ERROR_MAX_DEPTH_OBJECT;
+                        break;
+                    }''')],
+     'expect': {'C06': None, 'C08': None, 'C02': None, 'C01': None, 'C16': None}},
+]
